@@ -182,6 +182,11 @@ class Ctx:
             self.log("cancel-done", node)
             raise
         self.left.add(node)
+        if self.g("out", node) == "selfc":
+            # the body ends in CancelledError on its own (it awaited something that got cancelled)
+            self.log("self-cancel", node)
+            self.stall(node)
+            raise asyncio.CancelledError()
         if self.g("out", node) == "exc":
             self.log("raise", node)
             self.stall(node)
@@ -433,18 +438,22 @@ def build(ctx):
     for i in range(2, n + 1):
         kids[ctx.g("parent", i)].append(i)
 
+    def label_of(node):
+        # a label is optional
+        return None if ctx.h.get("nolabel") and node % 3 == 0 else "n%d" % node
+
     def mk(node):
         if ctx.g("kind", node) == "job":
             klass = CJob if ctx.hk("flavour", node, "abs") == "job" else VJob
             if ctx.h.get("lateattr"):
                 # flags are plain attributes too: built with the defaults, assigned afterwards
-                ctx.obj[node] = klass(node, label="n%d" % node)
+                ctx.obj[node] = klass(node, label=label_of(node))
                 ctx.obj[node].critical = ctx.g("crit", node)
                 ctx.obj[node].forever = ctx.g("forever", node)
             else:
                 ctx.obj[node] = klass(node, critical=ctx.g("crit", node),
                                       forever=ctx.g("forever", node),
-                                      label="n%d" % node)
+                                      label=label_of(node))
             return ctx.obj[node]
         members = [mk(k) for k in kids[node]]
         win = ctx.g("win", node)
@@ -460,18 +469,29 @@ def build(ctx):
                     timeout=None if tmo < 0 else tmo,
                     shutdown_timeout=None if stmo < 0 else stmo,
                     verbose=bool(ctx.h.get("verbose", False)))
+        if ctx.h.get("verbose") == "mixed":
+            # verbosity is a setting of each scheduler
+            kwds["verbose"] = ctx.hk("hash", node, node) % 2 == 0
         late = {}
         if ctx.h.get("lateattr"):
             # the settings are plain attributes: they may be assigned after construction
             late = {key: kwds[key] for key in ("jobs_window", "timeout", "shutdown_timeout")}
             kwds.update(jobs_window=1, timeout=7, shutdown_timeout=5)
+        # the members may be given to the constructor, or added afterwards, one by one or in bulk
+        style = ctx.h.get("addstyle", "ctor")
+        first = members if style == "ctor" else []
         if node == 1 and cfg["pure"]:
-            ctx.obj[node] = VPure(node, *members, **kwds)
+            ctx.obj[node] = VPure(node, *first, **kwds)
         else:
-            ctx.obj[node] = VSched(node, *members,
+            ctx.obj[node] = VSched(node, *first,
                                    critical=ctx.g("crit", node),
                                    forever=ctx.g("forever", node),
-                                   label="n%d" % node, **kwds)
+                                   label=label_of(node), **kwds)
+        if style == "add":
+            for member in members:
+                ctx.obj[node].add(member)
+        elif style == "update":
+            ctx.obj[node].update(iter(members) if node % 2 else list(members))
         for key, val in late.items():
             setattr(ctx.obj[node], key, val)
         if late and not (node == 1 and cfg["pure"]):
